@@ -124,6 +124,14 @@ impl<L: Language> Fixer<L> {
     })
   }
 
+  /// check that the `matches` references inside expandStart / expandEnd resolve
+  pub(crate) fn verify_util(&self) -> Result<(), RuleSerializeError> {
+    for exp in [&self.expand_start, &self.expand_end].into_iter().flatten() {
+      exp.matches.verify_util()?;
+    }
+    Ok(())
+  }
+
   pub(crate) fn used_vars(&self) -> HashSet<&str> {
     self.template.used_vars()
   }
